@@ -342,6 +342,21 @@ fn main() {
                     }
                 }
             }
+            // the byte order mark is text like any other: at the start, doubled, truncated, in the middle
+            for pre in [&[0xefu8, 0xbb, 0xbf][..], &[0xef, 0xbb, 0xbf, 0xef, 0xbb, 0xbf], &[0xef, 0xbb], &[0x41, 0xef, 0xbb, 0xbf], &[0xef, 0xbf, 0xbe]] {
+                for len in 0..=tail_max.min(2) {
+                    let n = (ALPHA.len() as u64).pow(len as u32);
+                    for code in 0..n {
+                        let mut v = pre.to_vec();
+                        let mut c = code;
+                        for _ in 0..len { v.push(ALPHA[(c % 20) as usize]); c /= 20; }
+                        check_utf8(&v);
+                        v.extend_from_slice("0123456789abcdef".as_bytes());
+                        check_utf8(&v);
+                        total += 2;
+                    }
+                }
+            }
             total += decode_under_faults();
             print!("{out}");
             checked = total;
@@ -403,6 +418,19 @@ fn main() {
                         let mut c = code;
                         for _ in 0..len { v.push(ALPHA[(c % 8) as usize]); c /= 8; }
                         v.extend_from_slice(&[0x6f, 0x6b]);
+                        check_utf16(&v);
+                        total += 1;
+                    }
+                }
+            }
+            // the byte order marks are ordinary units
+            for pre in [&[0xfeffu16][..], &[0xfffe], &[0xfeff, 0xfeff], &[0x41, 0xfeff]] {
+                for len in 0..=maxlen.min(3) {
+                    let n = (ALPHA.len() as u64).pow(len as u32);
+                    for code in 0..n {
+                        let mut v = pre.to_vec();
+                        let mut c = code;
+                        for _ in 0..len { v.push(ALPHA[(c % 8) as usize]); c /= 8; }
                         check_utf16(&v);
                         total += 1;
                     }
